@@ -512,6 +512,12 @@ func c14Run(c c14Case, r *vp.Rec) error {
 		MaxEncoderHeaderTableSize:    c.Srv.EncTable,
 		NewWriteScheduler:            vpSched(c.Srv.Sched),
 	}
+	var srvErrs []string // Server.CountError events (diagnostics only)
+	h2.CountError = func(e string) {
+		mu.Lock()
+		srvErrs = append(srvErrs, e)
+		mu.Unlock()
+	}
 	ConfigureServer(h1, h2)
 	cliEnd, srvEnd := synctestNetPipe()
 	// A bounded pipe makes writes block. After a connection error the server stops
@@ -778,7 +784,11 @@ func c14Run(c c14Case, r *vp.Rec) error {
 
 	mu.Lock()
 	defer mu.Unlock()
-	return c14Judge(&c, srvObs, cliObs, stray, cliWire, srvWire, r)
+	err = c14Judge(&c, srvObs, cliObs, stray, cliWire, srvWire, r)
+	if err != nil && len(srvErrs) > 0 {
+		err = fmt.Errorf("%v [server error counters: %s]", err, strings.Join(srvErrs, ","))
+	}
+	return err
 }
 
 var c14ReqAllow = map[string]bool{"User-Agent": true, "Content-Length": true, "Vp-Idx": true}
